@@ -59,27 +59,30 @@ type Options struct {
 
 // World is the closed system.
 type World struct {
-	Dir          string
-	Opt          Options
-	N            *simnode.Node
-	I            *inst.Inst
-	Wallets      map[string]*Wallet
-	owner        map[string]*Addr
-	SPk          []byte // stranger standard pkScript
-	SHash        []byte
-	S2Pk         []byte // second stranger script (double-spend destination)
-	led          *Ledger
-	ledTip       wire.Hash
-	refC         *enum.RefWallet
-	Pend         *PendingRef
-	BReimported  bool
-	statusCache  map[string]string
-	Restarts     int
-	NewAddrCalls int
-	RemoveFailed bool // the last background removal run returned an error
-	ImportQueued bool // the worker holds an import task for wallet C
-	Relayed      []*wire.MsgTx
-	RelayedKind  []string
+	Dir           string
+	Opt           Options
+	N             *simnode.Node
+	I             *inst.Inst
+	Wallets       map[string]*Wallet
+	owner         map[string]*Addr
+	SPk           []byte // stranger standard pkScript
+	SHash         []byte
+	S2Pk          []byte // second stranger script (double-spend destination)
+	led           *Ledger
+	ledTip        wire.Hash
+	refC          *enum.RefWallet
+	Pend          *PendingRef
+	BReimported   bool
+	statusCache   map[string]string
+	Restarts      int
+	NewAddrCalls  int
+	RemoveFailed  bool // the last background removal run returned an error
+	ImportQueued  bool // the worker holds an import task for wallet C
+	CImportHint   uint32
+	CImportHeight uint64
+	CUsedAtImport map[uint32]bool
+	Relayed       []*wire.MsgTx
+	RelayedKind   []string
 	// HandlerErrs collects errors returned by the handler entry points (handle() only logs them).
 	HandlerErrs []string
 }
